@@ -1,0 +1,47 @@
+//go:build verif
+
+package event
+
+import (
+	"reflect"
+	"time"
+)
+
+// simHook lets a deterministic simulator own the delivery schedule of a TypeMux: with a
+// handler attached, Post and AsyncPost hand the event to the handler (synchronously, in
+// program order) instead of delivering it; the simulator later delivers each event to each
+// subscriber, one at a time, in an order it chooses. The real mux guarantees no order between
+// asynchronously posted events, so every such order is a legal execution.
+type simHook struct {
+	h func(ev interface{})
+}
+
+// SimAttach installs (or, with nil, removes) the simulator's handler.
+func (mux *TypeMux) SimAttach(h func(ev interface{})) { mux.sim.h = h }
+
+func (mux *TypeMux) simPost(ev interface{}) bool {
+	if h := mux.sim.h; h != nil {
+		h(ev)
+		return true
+	}
+	return false
+}
+
+// SimSubscribers returns the subscriptions registered for ev's type, in registration order.
+func (mux *TypeMux) SimSubscribers(ev interface{}) []*TypeMuxSubscription {
+	mux.mutex.RLock()
+	defer mux.mutex.RUnlock()
+	if mux.stopped {
+		return nil
+	}
+	subs := mux.subm[reflect.TypeOf(ev)]
+	out := make([]*TypeMuxSubscription, len(subs))
+	copy(out, subs)
+	return out
+}
+
+// SimDeliver delivers ev to this one subscriber exactly as Post would (blocks until the
+// subscriber's loop has received it or the subscription is closed).
+func (s *TypeMuxSubscription) SimDeliver(ev interface{}) {
+	s.deliver(&TypeMuxEvent{Time: time.Now(), Data: ev})
+}
